@@ -71,7 +71,8 @@ RULE = ('rectangles 1x1..5x5 (all 25 shapes) filled from pools of numbers (exact
         'rectangle the five aggregates + a permuted/reshaped copy + a partition into sub-rectangles, '
         'sub-lists and several range arguments; SUBTOTAL(n) for the 10 codes; SUMPRODUCT of 1..3 equally '
         'shaped ranges (+ common permutation, mismatched shapes, near-int64 integer products). Paths: '
-        'library function as a formula calls it / worksheet + ExcelCompiler.evaluate. A case = one '
+        'library function as a formula calls it / worksheet + ExcelCompiler.evaluate (the rectangle written out, '
+        'or named by OFFSET(top-left,0,0,h,w) / INDIRECT("...") after the written form passed). A case = one '
         'scenario (all formulas over one set of rectangles); non-trivial = the ranges hold a cell that '
         'is not a plain number or at least two numeric cells; distinct by (kind, path, cell contents, '
         'permutation, partition, worksheet options).')
